@@ -1,6 +1,7 @@
 (* C01 PPRINT in full (pkg/output/record_writer_pprint.go: left/right aligned, barred or not) and the readers
    that go with it: RecordReaderPprintBarredOrMarkdown (pkg/input/record_reader_pprint.go; shared by
-   --barred-input and markdown input, which differ in the separator-line matcher only) and the
+   --barred-input and markdown input; the markdown instance -- own splitter, separator line only right after the
+   header line -- is in ModelMd.v) and the
    implicit-header getter of the csvlite/PPRINT reader (getRecordBatchImplicitCSVHeader).
    Definitions only.  lib.DisplayWidth is the argument [w]; OFS is the space. *)
 From Miller Require Import Base.Bytes Base.Record C01.Model C01.ModelXtab C01.ModelLite.
@@ -120,11 +121,9 @@ Fixpoint trim_go (head : bytes -> nat) (skip : nat) (s : bytes) : bytes :=
 Definition trim_space (s : bytes) : bytes := rev (trim_go ws_head_rev 0 (rev (trim_go ws_head 0 s))).
 
 (* ---------------------------------------------------------------- RecordReaderPprintBarredOrMarkdown *)
-(* separatorMatcher: `^\+[-+]*\+$` (barred PPRINT), `^\|[-\| ]+\|$` (markdown) *)
+(* separatorMatcher: `^\+[-+]*\+$` (barred PPRINT; the markdown one is in ModelMd.v) *)
 Definition sep_barred (s : bytes) : bool :=
   Nat.leb 2 (List.length s) && head_is "+" s && last_is "+" s && forallb (fun c => eqc c "+" || eqc c "-") s.
-Definition sep_markdown (s : bytes) : bool :=
-  Nat.leb 3 (List.length s) && head_is BAR s && last_is BAR s && forallb (fun c => eqc c "-" || eqc c BAR || eqc c SP) s.
 Definition middle {A} (l : list A) : list A := removelast (tl l).
 
 (* getRecordBatchExplicitPprintHeader / getRecordBatchImplicitPprintHeader (IFS "|", no repeats; fields trimmed;
